@@ -8,6 +8,7 @@ import vlib
 
 
 def main():
+    vlib.gen_ir(("Cur",))
     vlib.coq_makefile()
     rc, lg = vlib.coq_make(["all"], timeout=3000)
     if rc != 0:
